@@ -207,3 +207,17 @@ package peering
 //@ func Peering.GetLinks
 //@   option trusted
 //@   modifies nothing
+
+// ---- listeners (C20: starting a router brings its workers up; a listener that cannot be started must not take the
+// listen manager down with it) -------------------------------------------------------------------------------
+// A listener is returned exactly when no error is: the only assumption here (protocol implementations are function
+// values, not modelled). The listen manager must therefore not touch the listener on the error path.
+//@ func Peering.StartListener
+//@   option trusted
+//@   modifies nothing
+//@   ensures listener-or-error [C20]: (result1 == nil ==> nonnil(result0)) && (result1 != nil ==> result0 == nil)
+//@ func Peering.GetListener
+//@   option trusted
+//@   modifies nothing
+//@ func Peering.checkListen
+//@   requires w != nil && listening != nil
